@@ -21,6 +21,7 @@ type c13Base struct {
 	Ticks   int64
 	Hangs   bool
 	HangObs *enga.Obs
+	Graph   bool // cases on this base that generate Go do so with -g
 }
 
 // c13Wall: real-time limit of one generation in this check. The texts are a few kilobytes and take milliseconds; two
@@ -54,6 +55,12 @@ func c13Bases(ctx *Ctx) []c13Base {
 			lay := rr.Uint64() | 1
 			c13bases = append(c13bases, c13Base{Name: fmt.Sprintf("rendered-%d(%s)", k, s.Family), Text: renderSpec(s, v, lay, wl.EpiMinimal)})
 		}
+		// one base whose automaton drawing is far larger than a pipe buffer (64 KiB): with -g the graph goes to a child
+		// process, and whoever writes it must not wait for a reader that has not been started
+		{
+			ms := wl.ManyRulesN(r.Sub("graph-base"), 130)
+			c13bases = append(c13bases, c13Base{Name: "rendered-graph(many-rules 130)", Text: renderSpec(ms, wl.Variant{Lang: "go"}, 0, wl.EpiMinimal), Graph: true})
+		}
 		total := 0
 		for i := range c13bases {
 			t := c13bases[i].Text
@@ -84,7 +91,10 @@ func genC13(ctx *Ctx, i int) *Input {
 	in := &Input{Index: i}
 	total := c13cum[len(c13cum)-1]
 	var b int
-	if i < total {
+	// edits are spread evenly among the truncations, so that a wall-clock budget cuts both kinds proportionally
+	isEdit, k := mixCases(c13Edits(ctx), total, i)
+	if !isEdit {
+		i := k
 		for b = 0; c13cum[b] <= i; b++ {
 		}
 		at := i
@@ -93,7 +103,7 @@ func genC13(ctx *Ctx, i int) *Input {
 		}
 		in.Corrupt = &Corruption{Kind: "truncate", At: at}
 	} else {
-		r := rng.New(ctx.Seed, "C13", "edit", i)
+		r := rng.New(ctx.Seed, "C13", "edit", k)
 		b = r.Intn(len(bases))
 		n := len(bases[b].Text)
 		kinds := []string{"flip", "flip", "insert", "delete", "dupsector", "dropsector", "swapsector", "flip+truncate", "insert-rune", "rune-at-mark", "rune-at-mark"}
@@ -132,6 +142,10 @@ func genC13(ctx *Ctx, i int) *Input {
 		in.Mode, in.Variant = "gen", wl.Variant{Lang: "ts"}
 	default:
 		in.Mode, in.Variant = "gen", wl.Variant{Lang: "go", Object: true, Unpack: true}
+	}
+	// some generations draw the automaton in the same run (-g): the graph goes to a child process through a pipe
+	if in.Mode == "gen" && in.Variant.Lang == "go" && (i%12 == 0 || bases[b].Graph) {
+		in.Extra["graph"] = true
 	}
 	in.Scheds = []enga.Schedule{enga.Canonical()}
 	if i%7 == 0 {
@@ -289,7 +303,11 @@ func execC13(ctx *Ctx, in *Input) *Result {
 		o, text = baseHang, baseText
 		in = &Input{Index: in.Index, Base: in.Base, Corrupt: &Corruption{Kind: "none"}, Mode: "gen", Variant: wl.Variant{Lang: "go"}, Extra: in.Extra}
 	} else {
-		o = enga.Run(enga.Case{Text: text, Variant: in.Variant, Sched: sc, Mode: in.Mode, Budget: budget, WallLimit: c13Wall})
+		graph, _ := in.Extra["graph"].(bool)
+		if graph {
+			res.Count("generations_with_-g(child process)", 1)
+		}
+		o = enga.Run(enga.Case{Text: text, Variant: in.Variant, Sched: sc, Mode: in.Mode, Budget: budget, WallLimit: c13Wall, Graph: graph})
 	}
 	logObs(res, o)
 	res.SimTicks += o.Ticks
@@ -371,10 +389,13 @@ func realCLIHangs(ctx *Ctx, text string, in *Input, always bool) (bool, string) 
 	inp := filepath.Join(dir, "in.y")
 	os.WriteFile(inp, []byte(text), 0o644)
 	args := []string{"generate", "go", inp, filepath.Join(dir, "out")}
+	if g, _ := in.Extra["graph"].(bool); g && in.Mode != "debug" {
+		args = []string{"generate", "-g", filepath.Join(dir, "graph.png"), "go", inp, filepath.Join(dir, "out")}
+	}
 	if in.Mode == "debug" {
 		args = []string{"debug", inp}
 	} else if in.Variant.Lang == "ts" {
-		args[1] = "typescript"
+		args[len(args)-3] = "typescript"
 	}
 	c, cancel := context.WithTimeout(context.Background(), 10*time.Second)
 	defer cancel()
